@@ -278,6 +278,11 @@ pub enum DOp {
 pub struct DiskProgram {
     pub ws: WorkspaceSpec,
     pub ops: Vec<DOp>,
+    /// next to every helper module `fxN.py` there is also a package `fxN/__init__.py` (with a fixture
+    /// of its own) that is open in the editor: which of the two an import means must not depend on
+    /// what happens to be cached
+    #[serde(default)]
+    pub shadow_packages: bool,
 }
 
 pub fn disk_cfg() -> GenCfg {
@@ -292,7 +297,7 @@ fn disk_program() -> impl Strategy<Value = DiskProgram> {
         1 => Just(DOp::Flood),
         6 => (0u8..7, any::<u16>()).prop_map(|(k, f)| DOp::Query(k, f)),
     ];
-    (workspace(c.clone()), vec(op, 2..=12)).prop_map(|(ws, ops)| DiskProgram { ws, ops })
+    (workspace(c.clone()), vec(op, 2..=12), prop_oneof![3 => Just(false), 1 => Just(true)]).prop_map(|(ws, ops, shadow_packages)| DiskProgram { ws, ops, shadow_packages })
 }
 
 fn query_disk(db: &FixtureDatabase, kind: u8, path: &str, text: &str) -> Value {
@@ -323,6 +328,25 @@ pub fn check_disk(pg: &DiskProgram, info: &mut CaseInfo) -> Outcome {
     };
     let warm = new_db();
     let mut analyses: Vec<(usize, String)> = Vec::new();
+    // shadow packages: (path, text), analysed first in both indexes and never closed
+    let mut shadows: Vec<(String, String)> = Vec::new();
+    if pg.shadow_packages {
+        info.classes.push("shadow packages".into());
+        for (i, f) in it.files.iter().enumerate() {
+            if let FileKind::Helper(_) = f.loc.kind {
+                let pkg = format!("{}/__init__.py", paths[i].trim_end_matches(".py"));
+                let text = format!("import pytest\n\n\n@pytest.fixture\ndef {}():\n    return \"from the package\"\n", NAMES[i % 3]);
+                if let Some(parent) = Path::new(&pkg).parent() {
+                    let _ = std::fs::create_dir_all(parent);
+                }
+                let _ = std::fs::write(&pkg, &text);
+                shadows.push((pkg, text));
+            }
+        }
+    }
+    for (p, t) in &shadows {
+        warm.analyze_file(PathBuf::from(p), t);
+    }
     for &fi in &pg.ws.order() {
         let _ = std::fs::write(&paths[fi], &it.files[fi].text);
         warm.analyze_file(PathBuf::from(&paths[fi]), &it.files[fi].text);
@@ -330,6 +354,9 @@ pub fn check_disk(pg: &DiskProgram, info: &mut CaseInfo) -> Outcome {
     }
     let cold = |analyses: &Vec<(usize, String)>| {
         let db = new_db();
+        for (p, t) in &shadows {
+            db.analyze_file(PathBuf::from(p), t);
+        }
         for (fi, t) in analyses {
             db.analyze_file(PathBuf::from(&paths[*fi]), t);
         }
